@@ -195,6 +195,22 @@ pub fn uni_seen_take() -> Vec<(u16, u16, [u8; 16], u64)> {
     std::mem::take(&mut *UNI_SEEN.lock().unwrap())
 }
 
+static MATCHER_LOOPS_DONE: AtomicU64 = AtomicU64::new(0);
+
+/// lives for the duration of a subscription's command loop; when it goes the loop has written
+/// its last state marker
+pub struct MatcherLoopGuard;
+
+impl Drop for MatcherLoopGuard {
+    fn drop(&mut self) {
+        MATCHER_LOOPS_DONE.fetch_add(1, Ordering::SeqCst);
+    }
+}
+
+pub fn matcher_loops_done() -> u64 {
+    MATCHER_LOOPS_DONE.load(Ordering::SeqCst)
+}
+
 /// a subscription matcher finished processing one batch of candidates
 pub fn batch_done() {
     BATCHES.fetch_add(1, Ordering::SeqCst);
